@@ -268,7 +268,10 @@ static enum h1_status parse_chunked(struct cur *c, struct h1_msg *m, const char 
 		/* chunk-ext = *( BWS ";" BWS chunk-ext-name [ BWS "=" BWS chunk-ext-val ] ) */
 		while (i < ll) {
 			while (i < ll && is_ows(p[i])) i++;
-			if (i >= ll || p[i] != ';') { *reason = "chunk-size-line-invalid"; return H1_MUST_REJECT; }
+			/* chunk-size padded with blanks only: not in the grammar, but long tolerated by
+			 * recipients (padding senders exist); no RFC clause either way → latitude */
+			if (i >= ll) { *reason = "chunk-size-trailing-whitespace"; return H1_MAY_EITHER; }
+			if (p[i] != ';') { *reason = "chunk-size-line-invalid"; return H1_MUST_REJECT; }
 			i++;
 			while (i < ll && is_ows(p[i])) i++;
 			size_t a = i;
